@@ -37,6 +37,14 @@ pub fn sandbox_init() -> String {
 /// All threads of a worker take turns, so they are fastest on one CPU (a futex hand-off on
 /// the same core is a plain context switch, no cross-CPU wake-up).
 pub fn pin_to_cpu(k: u64) {
+    // no transparent huge pages in the workers: with them a forked actor copies 2 MiB per
+    // touched page and the workers serialise in the kernel's huge page allocator
+    if std::env::var("DSIM_THP").is_err() {
+        unsafe { libc::prctl(41 /* PR_SET_THP_DISABLE */, 1, 0, 0, 0) };
+    }
+    if std::env::var("DSIM_NO_PIN").is_ok() {
+        return;
+    }
     unsafe {
         let n = libc::sysconf(libc::_SC_NPROCESSORS_ONLN).max(1) as u64;
         let mut set: libc::cpu_set_t = std::mem::zeroed();
